@@ -78,56 +78,81 @@ pub struct ExpEl {
     pub meta: Option<EvMeta>,
     /// an InvalidToken error occurred earlier and no action has switched rule sets since
     pub after_failure: bool,
+    /// rule set the reference was in while producing this element
     pub set_before: usize,
+    /// char position at which the scan that produced this element started
+    pub scan_pos: usize,
+    /// rule set in which the last failure happened (while `after_failure`)
+    pub failed_in: Option<usize>,
 }
 
 pub fn exp_elements(h: &History) -> Vec<ExpEl> {
     let mut v = vec![];
     let mut prev = 0;
     let mut after_failure = false;
-    let mut set_before = 0usize;
-    let push_evs = |v: &mut Vec<ExpEl>, from: usize, to: usize, after_failure: &mut bool, set_before: &mut usize| {
-        for i in from..to {
-            let m = &h.meta[i];
-            *set_before = m.set;
+    let mut failed_in: Option<usize> = None;
+    for (i, it) in h.items.iter().enumerate() {
+        let end = h.item_ev_end[i];
+        for k in prev..end {
+            let m = &h.meta[k];
             if m.logged {
                 v.push(ExpEl {
                     end_already_done: false,
-                    el: El::Ev(norm_ev(&h.evs[i])),
+                    el: El::Ev(norm_ev(&h.evs[k])),
                     meta: Some(m.clone()),
-                    after_failure: *after_failure,
+                    after_failure,
                     set_before: m.set,
+                    scan_pos: m.lex_start,
+                    failed_in,
                 });
             }
             if m.outcome.contains('s') {
-                *after_failure = false;
+                after_failure = false;
+                failed_in = None;
             }
         }
-    };
-    for (i, it) in h.items.iter().enumerate() {
-        let end = h.item_ev_end[i];
-        push_evs(&mut v, prev, end, &mut after_failure, &mut set_before);
         prev = end;
         v.push(ExpEl {
             end_already_done: false,
             el: El::It(it.clone()),
             meta: None,
             after_failure,
-            set_before,
+            set_before: h.item_set.get(i).copied().unwrap_or(0),
+            scan_pos: h.item_scan_pos.get(i).copied().unwrap_or(0),
+            failed_in,
         });
         if matches!(it, Item::ErrInvalid { .. }) {
             after_failure = true;
-            set_before = 0;
+            failed_in = Some(h.item_set.get(i).copied().unwrap_or(0));
         }
     }
-    push_evs(&mut v, prev, h.evs.len(), &mut after_failure, &mut set_before);
+    for k in prev..h.evs.len() {
+        let m = &h.meta[k];
+        if m.logged {
+            v.push(ExpEl {
+                end_already_done: false,
+                el: El::Ev(norm_ev(&h.evs[k])),
+                meta: Some(m.clone()),
+                after_failure,
+                set_before: m.set,
+                scan_pos: m.lex_start,
+                failed_in,
+            });
+        }
+        if m.outcome.contains('s') {
+            after_failure = false;
+            failed_in = None;
+        }
+    }
     if h.final_done {
         v.push(ExpEl {
             end_already_done: h.end_kind == 2,
             el: El::End,
             meta: None,
             after_failure,
-            set_before,
+            set_before: h.end_set,
+            scan_pos: h.end_pos,
+            failed_in,
         });
     }
     v
@@ -142,10 +167,6 @@ pub struct Divergence {
     pub observed: String,
 }
 
-fn loc_bytes_eq(a: &Loc, b: &Loc) -> bool {
-    a.byte == b.byte
-}
-
 pub struct SpecInfo {
     /// rule id -> rule set index
     pub rule_set: Vec<usize>,
@@ -156,14 +177,159 @@ pub struct SpecInfo {
     pub n_bytes: usize,
 }
 
+/// What the reference knows about one rule on one span.
+#[derive(Clone, Copy, Debug, Default)]
+pub struct RuleMatch {
+    /// the rule's regex matches input[start..end] without / through an end-of-input marker
+    pub regex_plain: bool,
+    pub regex_eoi: bool,
+    pub has_ctx: bool,
+    /// the rule's right context holds after `end` (true when it has none)
+    pub ctx_ok: bool,
+}
+
+/// Questions the classifier may ask the reference model about the *observed* behaviour.
+pub trait Oracle {
+    fn rule_match(&mut self, rule: u32, start: usize, end: usize) -> RuleMatch;
+    /// maximal-munch selection from `pos` in rule set `set`: (rule id, end char position), None = nothing matches
+    fn select(&mut self, set: usize, pos: usize) -> Option<(u32, usize)>;
+    fn pos_of_byte(&self, byte: usize) -> Option<usize>;
+}
+
 fn add(props: &mut Vec<&'static str>, p: &'static str) {
     if !props.contains(&p) {
         props.push(p);
     }
 }
 
+struct SelCtx<'a> {
+    info: &'a SpecInfo,
+    scan_pos: usize,
+    set_before: usize,
+    after_failure: bool,
+    failed_in: Option<usize>,
+    exp_meta: Option<&'a EvMeta>,
+}
+
+/// Classify a divergence in *what was selected*: `obs` / `exp` = (rule id, end char position) or None
+/// for InvalidToken.
+fn classify_selection(props: &mut Vec<&'static str>, c: &SelCtx, oracle: &mut dyn Oracle, obs: Option<(u32, Option<usize>)>, exp: Option<(u32, usize)>) {
+    let info = c.info;
+    let obs_set = obs.and_then(|(r, _)| info.rule_set.get(r as usize).copied());
+    // ---- A. explained by being in another rule set?
+    if let Some(os) = obs_set {
+        if os != c.set_before {
+            add(props, "C03");
+            if c.after_failure {
+                add(props, "C08");
+            }
+            return;
+        }
+    }
+    if c.after_failure {
+        if let Some(fs) = c.failed_in {
+            if fs != c.set_before {
+                let hyp = oracle.select(fs, c.scan_pos);
+                let same = match (hyp, obs) {
+                    (None, None) => true,
+                    (Some((hr, he)), Some((or, Some(oe)))) => hr == or && he == oe,
+                    _ => false,
+                };
+                if same {
+                    // exactly what the lexer would do had it stayed in the rule set it failed in
+                    add(props, "C08");
+                    add(props, "C03");
+                    return;
+                }
+            }
+        }
+    }
+    // ---- B. same rule set: language, selection, context or end-of-input?
+    let exp_has_ctx = exp
+        .map(|(r, e)| oracle.rule_match(r, c.scan_pos, e).has_ctx)
+        .unwrap_or(false);
+    let exp_via_eoi = c.exp_meta.map(|m| m.via_eoi).unwrap_or(false);
+    let exp_rewind = c.exp_meta.map(|m| m.rewind).unwrap_or(0);
+    match (obs, exp) {
+        (Some((or, oe)), Some((_er, ee))) => {
+            match oe {
+                Some(oe) if oe >= c.scan_pos => {
+                    let m = oracle.rule_match(or, c.scan_pos, oe);
+                    if m.regex_plain || m.regex_eoi {
+                        if m.has_ctx && !m.ctx_ok {
+                            // a candidate whose context does not hold was accepted
+                            add(props, "C04");
+                        } else {
+                            // a genuine candidate, but not the maximal-munch / first-rule one
+                            add(props, "C01");
+                            if exp_has_ctx {
+                                add(props, "C04");
+                            }
+                            if oe < ee {
+                                // the lexer stopped short of a longer match: a path of the longer rule
+                                // may be missing from the automaton
+                                add(props, "C02");
+                            }
+                        }
+                        if (m.regex_eoi && !m.regex_plain) || exp_via_eoi {
+                            add(props, "C05");
+                        }
+                    } else {
+                        // the observed rule does not match the observed lexeme at all
+                        add(props, "C02");
+                        if exp_via_eoi || oe == info.n_chars && info.set_has_eoi.get(c.set_before).copied().unwrap_or(false) {
+                            add(props, "C05");
+                        }
+                    }
+                }
+                _ => {
+                    // lexeme ends before the scan started (or not on a char boundary): a stale candidate
+                    add(props, "C10");
+                    add(props, "C01");
+                }
+            }
+        }
+        (None, Some((_er, _ee))) => {
+            add(props, "C07");
+            if exp_rewind > 0 {
+                add(props, "C01");
+            } else {
+                add(props, "C02");
+                add(props, "C01");
+            }
+            if exp_has_ctx {
+                add(props, "C04");
+            }
+            if exp_via_eoi {
+                add(props, "C05");
+            }
+        }
+        (Some((or, oe)), None) => {
+            add(props, "C07");
+            match oe {
+                Some(oe) if oe > c.scan_pos => {
+                    let m = oracle.rule_match(or, c.scan_pos, oe);
+                    if (m.regex_plain || m.regex_eoi) && m.has_ctx && !m.ctx_ok {
+                        add(props, "C04");
+                    } else if m.regex_plain || m.regex_eoi {
+                        add(props, "C01");
+                    } else {
+                        add(props, "C02");
+                        add(props, "C10");
+                    }
+                }
+                _ => {
+                    // an action ran for text that was already consumed: an abandoned candidate
+                    add(props, "C10");
+                }
+            }
+        }
+        (None, None) => {}
+    }
+}
+
 /// Compare; return the first divergence (None = histories agree).
-pub fn first_divergence(obs: &[El], exp: &[ExpEl], info: &SpecInfo) -> Option<Divergence> {
+pub fn first_divergence(obs: &[El], exp: &[ExpEl], info: &SpecInfo, oracle: &mut dyn Oracle) -> Option<Divergence> {
     let n = obs.len().max(exp.len());
     for i in 0..n {
         let o = obs.get(i);
@@ -174,38 +340,17 @@ pub fn first_divergence(obs: &[El], exp: &[ExpEl], info: &SpecInfo) -> Option<Di
         }
         let mut props: Vec<&'static str> = vec![];
         let what;
-        let after_failure = e.map(|e| e.after_failure).unwrap_or_else(|| exp.last().map(|l| l.after_failure).unwrap_or(false));
-        let set_before = e.map(|e| e.set_before).unwrap_or(0);
-        let scan_props = |props: &mut Vec<&'static str>, obs_rule: Option<u32>, at_eoi: bool| {
-            if after_failure {
-                add(props, "C08");
-                // re-entering a rule set without a switch also breaks rule-set isolation
-                if let Some(r) = obs_rule {
-                    if let Some(s) = info.rule_set.get(r as usize) {
-                        if *s != set_before {
-                            add(props, "C03");
-                        }
-                    }
-                }
-                return;
-            }
-            if let Some(r) = obs_rule {
-                if let Some(s) = info.rule_set.get(r as usize) {
-                    if *s != set_before {
-                        add(props, "C03");
-                        return;
-                    }
-                }
-            }
-            add(props, "C01");
-            add(props, "C02");
-            if info.set_has_ctx.get(set_before).copied().unwrap_or(false) {
-                add(props, "C04");
-            }
-            if at_eoi || info.set_has_eoi.get(set_before).copied().unwrap_or(false) {
-                add(props, "C05");
-            }
+        let last = exp.last();
+        let after_failure = e.map(|e| e.after_failure).unwrap_or_else(|| last.map(|l| l.after_failure).unwrap_or(false));
+        let sc = SelCtx {
+            info,
+            scan_pos: e.map(|e| e.scan_pos).unwrap_or_else(|| last.map(|l| l.scan_pos).unwrap_or(0)),
+            set_before: e.map(|e| e.set_before).unwrap_or_else(|| last.map(|l| l.set_before).unwrap_or(0)),
+            after_failure,
+            failed_in: e.map(|e| e.failed_in).unwrap_or_else(|| last.and_then(|l| l.failed_in)),
+            exp_meta: e.and_then(|e| e.meta.as_ref()),
         };
+        let exp_sel_of_ev = |ee: &Ev, oracle: &dyn Oracle| -> Option<(u32, usize)> { oracle.pos_of_byte(ee.me.byte).map(|p| (ee.rule, p)) };
         match (o, e.map(|e| &e.el)) {
             (Some(El::Ev(oe)), Some(El::Ev(ee))) => {
                 if oe.rule == ee.rule && oe.me.byte == ee.me.byte {
@@ -239,8 +384,9 @@ pub fn first_divergence(obs: &[El], exp: &[ExpEl], info: &SpecInfo) -> Option<Di
                         what = "match_loc() after reset_match() differs";
                     }
                 } else {
-                    let at_eoi = oe.me.byte == info.n_bytes || ee.me.byte == info.n_bytes;
-                    scan_props(&mut props, Some(oe.rule), at_eoi);
+                    let exp_sel = exp_sel_of_ev(ee, oracle);
+                    let obs_sel = Some((oe.rule, oracle.pos_of_byte(oe.me.byte)));
+                    classify_selection(&mut props, &sc, oracle, obs_sel, exp_sel);
                     what = "a different (rule, lexeme) was selected";
                 }
             }
@@ -249,17 +395,18 @@ pub fn first_divergence(obs: &[El], exp: &[ExpEl], info: &SpecInfo) -> Option<Di
                     Item::Tok { start: os, rule: or, val: ov, end: oe },
                     Item::Tok { start: es, rule: er, val: ev, end: ee },
                 ) => {
-                    if or != er || ov != ev {
-                        // a token from a rule that does not log (`re = t`): selection differs
-                        scan_props(&mut props, Some(*or), oe.byte == info.n_bytes || ee.byte == info.n_bytes);
+                    if or != er || oe.byte != ee.byte {
+                        // tokens of rules that do not log (`re = t`): the selection itself differs
+                        let exp_sel = oracle.pos_of_byte(ee.byte).map(|p| (*er, p));
+                        let obs_sel = Some((*or, oracle.pos_of_byte(oe.byte)));
+                        classify_selection(&mut props, &sc, oracle, obs_sel, exp_sel);
+                        what = "a different (rule, lexeme) was selected (token of a rule without action log)";
+                    } else if ov != ev {
                         add(&mut props, "C10");
                         what = "token value differs";
-                    } else if !loc_bytes_eq(os, es) || !loc_bytes_eq(oe, ee) {
-                        if oe.byte != ee.byte {
-                            scan_props(&mut props, Some(*or), oe.byte == info.n_bytes || ee.byte == info.n_bytes);
-                        }
+                    } else if !loc_bytes_eq(os, es) {
                         add(&mut props, "C10");
-                        what = "token span differs";
+                        what = "token span start differs";
                     } else {
                         add(&mut props, "C06");
                         what = "line/column of token span differs";
@@ -286,10 +433,17 @@ pub fn first_divergence(obs: &[El], exp: &[ExpEl], info: &SpecInfo) -> Option<Di
                         what = "line/column of Custom error location differs";
                     }
                 }
-                (Item::ErrInvalid { .. }, _) | (_, Item::ErrInvalid { .. }) => {
+                (Item::ErrInvalid { .. }, Item::Tok { rule: er, end: ee, .. }) => {
+                    let exp_sel = oracle.pos_of_byte(ee.byte).map(|p| (*er, p));
+                    classify_selection(&mut props, &sc, oracle, None, exp_sel);
                     add(&mut props, "C07");
-                    scan_props(&mut props, None, false);
-                    what = "InvalidToken on one side only";
+                    what = "InvalidToken where a token was expected";
+                }
+                (Item::Tok { rule: or, end: oe, .. }, Item::ErrInvalid { .. }) => {
+                    let obs_sel = Some((*or, oracle.pos_of_byte(oe.byte)));
+                    classify_selection(&mut props, &sc, oracle, obs_sel, None);
+                    add(&mut props, "C07");
+                    what = "a token where InvalidToken was expected";
                 }
                 _ => {
                     add(&mut props, "C07");
@@ -303,41 +457,60 @@ pub fn first_divergence(obs: &[El], exp: &[ExpEl], info: &SpecInfo) -> Option<Di
                     // end of input had been acted upon (by a `$` match or an error that saw it):
                     // every further call must give None
                     add(&mut props, "C05");
-                } else if after_failure {
-                    // expected None in Init but the lexer is somewhere else (or vice versa): the
-                    // failure did not (durably) reset the rule set
-                    add(&mut props, "C08");
-                    add(&mut props, "C03");
+                } else if after_failure && sc.failed_in.map(|f| f != sc.set_before).unwrap_or(false) {
+                    // consistent with the lexer still being in the rule set it failed in?
+                    let hyp = oracle.select(sc.failed_in.unwrap(), sc.scan_pos);
+                    let explained = match (o, hyp) {
+                        (Some(El::It(Item::ErrInvalid { .. })), None) => true,
+                        (Some(El::Ev(oe)), Some((hr, _))) => hr == oe.rule,
+                        (Some(El::It(Item::Tok { rule, .. })), Some((hr, _))) => hr == *rule,
+                        _ => false,
+                    };
+                    if explained {
+                        add(&mut props, "C08");
+                        add(&mut props, "C03");
+                    } else {
+                        add(&mut props, "C05");
+                    }
                 } else {
                     add(&mut props, "C05");
                 }
                 what = "stream ends at a different point";
             }
-            (Some(El::It(Item::ErrInvalid { .. })), Some(El::Ev(_))) | (Some(El::Ev(_)), Some(El::It(Item::ErrInvalid { .. }))) => {
+            (Some(El::It(Item::ErrInvalid { .. })), Some(El::Ev(ee))) => {
+                let exp_sel = exp_sel_of_ev(ee, oracle);
+                classify_selection(&mut props, &sc, oracle, None, exp_sel);
                 add(&mut props, "C07");
-                let r = match o {
-                    Some(El::Ev(oe)) => Some(oe.rule),
-                    _ => None,
-                };
-                scan_props(&mut props, r, false);
-                if r.is_some() {
-                    // an action ran although no rule matches here: it belongs to an abandoned
-                    // (stale) candidate
+                what = "InvalidToken versus a match";
+            }
+            (Some(El::Ev(oe)), Some(El::It(Item::ErrInvalid { .. }))) => {
+                let obs_sel = Some((oe.rule, oracle.pos_of_byte(oe.me.byte)));
+                classify_selection(&mut props, &sc, oracle, obs_sel, None);
+                add(&mut props, "C07");
+                what = "an action ran where nothing matches (InvalidToken expected)";
+            }
+            (Some(El::Ev(oe)), Some(El::It(Item::Tok { rule: er, end: ee, .. }))) => {
+                // expected: a token of a rule without action log; observed: a logging action
+                let exp_sel = oracle.pos_of_byte(ee.byte).map(|p| (*er, p));
+                let obs_sel = Some((oe.rule, oracle.pos_of_byte(oe.me.byte)));
+                classify_selection(&mut props, &sc, oracle, obs_sel, exp_sel);
+                what = "an action ran where the token of another rule was expected";
+            }
+            (Some(El::It(Item::Tok { rule: or, end: oe, .. })), Some(El::Ev(ee))) => {
+                let exp_sel = exp_sel_of_ev(ee, oracle);
+                let obs_sel = Some((*or, oracle.pos_of_byte(oe.byte)));
+                if *or == ee.rule {
+                    // the right rule's token came back although its action (log) is missing
                     add(&mut props, "C10");
-                    what = "an action ran where nothing matches (InvalidToken expected)";
                 } else {
-                    what = "InvalidToken versus a match";
+                    classify_selection(&mut props, &sc, oracle, obs_sel, exp_sel);
                 }
+                what = "a token was returned where an action was expected";
             }
-            (Some(El::Ev(oe)), Some(El::It(_))) => {
-                scan_props(&mut props, Some(oe.rule), false);
+            (Some(El::Ev(_)), Some(El::It(_))) | (Some(El::It(_)), Some(El::Ev(_))) => {
+                add(&mut props, "C07");
                 add(&mut props, "C10");
-                what = "an action ran where an item was expected";
-            }
-            (Some(El::It(_)), Some(El::Ev(_))) => {
-                scan_props(&mut props, None, false);
-                add(&mut props, "C10");
-                what = "an item was returned where an action was expected";
+                what = "an action and an item are interchanged";
             }
             (None, Some(_)) => {
                 add(&mut props, "C05");
@@ -360,6 +533,10 @@ pub fn first_divergence(obs: &[El], exp: &[ExpEl], info: &SpecInfo) -> Option<Di
         });
     }
     None
+}
+
+fn loc_bytes_eq(a: &Loc, b: &Loc) -> bool {
+    a.byte == b.byte
 }
 
 /// Model-free invariants on one observed history. Returns (property, description) pairs.
